@@ -141,8 +141,22 @@ crypt_scrypt_rn (const char *phrase, size_t phr_size,
                  uint8_t *output, size_t o_size,
                  void *scratch, size_t s_size)
 {
-  if (o_size < set_size + 1 + 43 + 1 ||
-      CRYPT_OUTPUT_SIZE < set_size + 1 + 43 + 1)
+  /* The result keeps the setting up to the end of the salt and then
+     appends '$' and the hash.  A hash the setting already carries
+     (everything after the last '$' of the salt string) is replaced,
+     not appended to, so it must not count towards the space needed;
+     otherwise a hash produced from a long salt would not be accepted
+     as a setting again.  */
+  size_t kept_size = set_size;
+  if (set_size > 3 + 1 + 5 * 2)
+    {
+      const char *hash = strrchr (setting + 3 + 1 + 5 * 2, '$');
+      if (hash)
+        kept_size = (size_t) (hash - setting);
+    }
+
+  if (o_size < kept_size + 1 + 43 + 1 ||
+      CRYPT_OUTPUT_SIZE < kept_size + 1 + 43 + 1)
     {
       errno = ERANGE;
       return;
@@ -155,7 +169,7 @@ crypt_scrypt_rn (const char *phrase, size_t phr_size,
       return;
     }
 
-  crypt_yescrypt_rn (phrase, phr_size, setting, set_size,
+  crypt_yescrypt_rn (phrase, phr_size, setting, kept_size,
                      output, o_size, scratch, s_size);
   return;
 }
